@@ -184,13 +184,14 @@ def derives(fnode, expr, pred, depth=8, at=None, _seen=None):
     alldefs = local_defs(fnode) if at is None else None
     for n in ast.walk(expr):
         if isinstance(n, ast.Name) and isinstance(n.ctx, ast.Load):
-            if n.id in _seen:
-                continue
-            _seen.add(n.id)
             ds = rd.at(at, n.id) if rd is not None else alldefs.get(n.id, [])
             for d in ds:
                 if d.value is None:
                     continue
+                key = (n.id, id(d.stmt))
+                if key in _seen:
+                    continue
+                _seen.add(key)
                 val = d.value
                 if d.kind == 'aug':
                     val = d.stmt.value
